@@ -1602,6 +1602,22 @@ class Interp:
         raise Unsupported("str method %s on %r" % (name, recv))
 
     def list_method(self, recv, name, args):
+        if name == "split_off" and isinstance(args[0], int):
+            # Vec::split_off(at): the vector keeps [0, at), the tail is returned
+            at_ = args[0]
+            if at_ > len(recv):
+                raise RustPanic("`at` split index (is %d) should be <= len (is %d)" % (at_, len(recv)))
+            tail_ = list(recv[at_:])
+            del recv[at_:]
+            return tail_
+        if name == "swap_remove" and isinstance(args[0], int):
+            i_ = args[0]
+            if i_ >= len(recv):
+                raise RustPanic("swap_remove index out of bounds")
+            v_ = recv[i_]
+            recv[i_] = recv[-1]
+            recv.pop()
+            return v_
         if name in ("split_at_mut", "split_at") and isinstance(args[0], int):
             mid = args[0]
             if mid > len(recv):
@@ -1666,7 +1682,7 @@ class Interp:
             return ()
         if name == "pop":
             return Some(recv.pop()) if recv else NONE
-        if name == "first":
+        if name == "first" or name == "first_mut":
             return Some(recv[0]) if recv else NONE
         if name == "last" or name == "last_mut":
             return Some(recv[-1]) if recv else NONE
